@@ -3,6 +3,7 @@
    of p's wants folded from the wantlist messages p sent (full replaces, cancels remove, wants add — cap
    1024 — and a dispatch to p removes what was sent), defined from the history only. *)
 From BS Require Import Bytes Cid Prefix Proto Types Server Server_lemmas Server_inv Server_proofs Server_live Tie_consts.
+From BS Require Import Tie_server.   (* tie lemmas: a source edit that changes what they extract breaks this file's closure *)
 Open Scope N_scope.
 
 (* every block in an observable QueueOutgoingMessages event to p: its CID was in p's reference view
